@@ -927,26 +927,31 @@ def m_divmod(a, b):
     return divmod(a, b)
 
 
-def m_min(*args, **kw):
+def _m_extreme(op, args, kw):
+    key = kw.pop("key", None)
+    has_default = "default" in kw
+    default = kw.pop("default", None)
     if kw:
-        raise Unsupported("min with key")
-    xs = list(args[0]) if len(args) == 1 else list(args)
-    best = xs[0]
-    for x in xs[1:]:
-        if truth(compare('<', x, best)):
-            best = x
-    return best
+        raise Unsupported("min/max keyword")
+    xs = list(sx_iter(args[0])) if len(args) == 1 else list(args)
+    if not xs:
+        if has_default:
+            return default
+        raise ValueError("min()/max() arg is an empty sequence")
+    ks = [call(key, x) for x in xs] if key is not None else xs
+    best = 0
+    for i in range(1, len(xs)):
+        if truth(compare(op, ks[i], ks[best])):
+            best = i
+    return xs[best]
+
+
+def m_min(*args, **kw):
+    return _m_extreme('<', args, kw)
 
 
 def m_max(*args, **kw):
-    if kw:
-        raise Unsupported("max with key")
-    xs = list(args[0]) if len(args) == 1 else list(args)
-    best = xs[0]
-    for x in xs[1:]:
-        if truth(compare('>', x, best)):
-            best = x
-    return best
+    return _m_extreme('>', args, kw)
 
 
 def m_ord(c):
@@ -1127,7 +1132,7 @@ MODELS.update({int: m_int, str: m_str, len: m_len, sum: m_sum, bool: m_bool, abs
                all: m_all, bytes: m_bytes, repr: m_repr, format: m_format,
                isinstance: m_isinstance, type: m_type, getattr: m_getattr, setattr: m_setattr,
                hasattr: m_hasattr, print: m_print})
-ALWAYS_MODEL.update({isinstance, type, getattr, setattr, hasattr, print, str, set})
+ALWAYS_MODEL.update({isinstance, type, getattr, setattr, hasattr, print, str, set, filter, map, sorted, any, all, min, max})
 
 
 # ---------------------------------------------------------------- f-strings / format
@@ -1484,6 +1489,16 @@ def _native(f, args, kw):
         slf = getattr(f, '__self__', None)
         name = getattr(f, '__name__', '')
         if slf is not None and isinstance(slf, (list, dict, set)) and not isinstance(slf, type):
+            if isinstance(slf, dict) and name in ('setdefault', 'pop', '__contains__', '__getitem__', '__setitem__', '__delitem__') and args and isinstance(args[0], Sym):
+                # a symbolic key: an enumeration is decided (forks over its tokens); any other symbolic key is identified with an
+                # existing key the solver finds equal, otherwise it is a new key
+                key = concretize_enum(args[0]) if isinstance(args[0], SymEnum) else args[0]
+                if isinstance(key, Sym):
+                    for k in list(slf):
+                        if truth(compare('==', k, key)):
+                            key = k
+                            break
+                return f(key, *args[1:], **kw)
             if name in _NATIVE_CONTAINER_METHODS:
                 return f(*args, **kw)
             if isinstance(slf, dict) and name == 'get':
@@ -1494,7 +1509,16 @@ def _native(f, args, kw):
                 return m_sum([compare('==', x, args[0]) for x in slf])
         if f is functools.reduce:
             return _reduce(*args)
-        if isinstance(f, (operator.attrgetter, operator.itemgetter)):
+        if isinstance(f, (operator.attrgetter, operator.itemgetter, operator.methodcaller)):
+            if isinstance(f, operator.attrgetter) and len(args) == 1 and isinstance(args[0], Sym):
+                names = f.__reduce__()[1]           # the attribute names the getter was built with
+                vals = []
+                for nm in names:
+                    o = args[0]
+                    for part in nm.split("."):
+                        o = getattr_(o, part)
+                    vals.append(o)
+                return vals[0] if len(vals) == 1 else tuple(vals)
             return f(*args, **kw)
         if f in (dict, copy.deepcopy, copy.copy, iter, next, id):
             return f(*args, **kw)
